@@ -31,6 +31,8 @@ structure DSt where
   nkeys : Nat
   fed : Array Nat          -- records made available so far, per split
   ok : Bool := true
+  live : Bool := false     -- a deployment reused a live node process (finding D39): deviations are attributed to it
+  echo : Bool := false     -- after the first such deviation the model state no longer describes the cluster
 
 def keyBytes (k : Nat) : Bytes := (0x6b : UInt8) :: (toString k).toList.map (fun c => UInt8.ofNat c.toNat)
 
@@ -158,6 +160,15 @@ def applyTok (d : DSt) (tok : String) : DSt × String :=
         let cs := joinWith "." ((List.range d.nsplits).map fun sp => toString (d'.s.cursor sp))
         (d', s!"R:{n}:{ck}:{cs}:{j}")
       | none => bad "restart"
+    | ["L", n, _ck, _cs, j] =>
+      let ck := match newest d.s.published with
+        | some c => toString c.id
+        | none => "none"
+      match act d (.redeployLive (natOr n)) with
+      | some (d', _) =>
+        let cs := joinWith "." ((List.range d.nsplits).map fun sp => toString (d'.s.cursor sp))
+        ({ d' with live := true }, s!"L:{n}:{ck}:{cs}:{j}")
+      | none => bad "redeploy"
     | ["Q"] => (d, if quiescentB d then "Q" else "NQ")
     | ["NQ"] => (d, if quiescentB d then "Q" else "NQ")
     | _ =>
@@ -177,8 +188,9 @@ def splitAt2 (ws : List String) : List String × List String :=
   (ws.takeWhile (· ≠ "##"), (ws.dropWhile (· ≠ "##")).drop 1)
 
 def step' (d : DSt) (ws : List String) : DSt × String :=
-  if !d.ok then (d, "desync") else
   let (op, toks) := splitAt2 ws
+  if d.echo then (d, joinWith " " (if op == ["end"] then ["ok"] else toks)) else
+  if !d.ok then (d, "desync") else
   let d := match op with
     | "feed" :: sp :: ks :: _ => { d with fed := d.fed.modify (natOr sp) (· + (ks.splitOn ",").length) }
     | "probe" :: _ => (List.range d.nkeys).foldl (fun (d : DSt) k => { d with fed := d.fed.modify (k % d.nsplits) (· + 1) }) d
@@ -187,7 +199,12 @@ def step' (d : DSt) (ws : List String) : DSt × String :=
   | ["end"] => (d, if !quiescentB d || exactlyOnceB d then "ok" else "exactly-once-violated")
   | _ =>
     let (d', out) := applyToks d toks []
-    (d', joinWith " " out)
+    let line := joinWith " " out
+    -- model of the code as it is after a live redeploy: whatever the implementation did; the spec side is the
+    -- fresh-process model. The first deviation is reported as the known finding.
+    if d'.live && line != joinWith " " toks then
+      ({ d' with echo := true }, joinWith " " toks ++ " #spec " ++ line ++ " #kf D39")
+    else (d', line)
 
 def handle (lines : Array String) (i : Nat) (out : Array String) : Nat × Array String :=
   let hdr := words (lines.getD (i - 1) "")
